@@ -136,6 +136,11 @@ type c10OTok struct {
 	F int    `json:"f"`
 	L int    `json:"l"`
 	T string `json:"t"`
+	// what the implementation's Dispenser over the group's tokens answers with the cursor on the
+	// previous token of the group: NextLine() (the isNextOnNewLine test, shared with nextOnSameLine /
+	// NextBlock) and NextArg(); both false for the first token
+	NL bool `json:"nl,omitempty"`
+	SA bool `json:"sa,omitempty"`
 }
 type c10OGroup struct {
 	Dir  string    `json:"dir"`
@@ -213,6 +218,19 @@ func c10Observe(blocks []casketfile.ServerBlock, err error, panicked string, dir
 				}
 				g.Toks = append(g.Toks, c10OTok{F: f, L: t.Line, T: t.Text})
 			}
+			// the line structure as the real Dispenser sees it (exported operations only)
+			dl := casketfile.NewDispenserTokens("", toks)
+			da := casketfile.NewDispenserTokens("", toks)
+			dl.Next()
+			da.Next()
+			for k := 1; k < len(toks); k++ {
+				if g.Toks[k].NL = dl.NextLine(); !g.Toks[k].NL {
+					dl.Next()
+				}
+				if g.Toks[k].SA = da.NextArg(); !g.Toks[k].SA {
+					da.Next()
+				}
+			}
 			ob.Groups = append(ob.Groups, g)
 		}
 		sort.SliceStable(ob.Groups, func(i, j int) bool { return ob.Groups[i].Dir < ob.Groups[j].Dir })
@@ -230,7 +248,7 @@ func c10ObsTerm(o c10Obs) string {
 			for _, g := range b.Groups {
 				var ts []string
 				for _, t := range g.Toks {
-					ts = append(ts, "("+cN(uint64(t.F))+", "+cZ(int64(t.L))+", "+cRunes(t.T)+")")
+					ts = append(ts, "("+cN(uint64(t.F))+", "+cZ(int64(t.L))+", "+cRunes(t.T)+", ("+cBool(t.NL)+", "+cBool(t.SA)+"))")
 				}
 				gs = append(gs, cPair(cRunes(g.Dir), cList(ts)))
 			}
@@ -283,14 +301,8 @@ func c10StructDeviates(o c10Obs, ex []c10EBlock) (textsOK bool, structOK bool) {
 				if t.T != e.Toks[k].T {
 					textsOK = false
 				}
-				if k > 0 {
-					p := g.Toks[k-1]
-					end := p.L + strings.Count(p.T, "\n")
-					newLine := p.F != t.F || end < t.L
-					sameArg := p.F == t.F && end == t.L
-					if newLine != e.Toks[k].NL || sameArg == e.Toks[k].NL {
-						structOK = false
-					}
+				if k > 0 && (t.NL != e.Toks[k].NL || t.SA == e.Toks[k].NL) {
+					structOK = false
 				}
 			}
 		}
@@ -599,7 +611,8 @@ func c10Run(in0 interface{}) Result {
 	if in.Tag == "ast:env-newline" && (o.Class == "ok" || o.Class == "error") {
 		sig = in.Tag // an environment value with a line break: one class whatever the outcome
 	} else if in.HasExp && o.Class == "ok" && (in.Tag == "ast:snippets" || in.Tag == "ast:mixed") {
-		// snippet tokens keep the line numbers of their definition: classify what that did to this input
+		// snippet tokens keep the line numbers of their definition: if the output deviates from the AST,
+		// classify what that did to this input (F-C10-4/5, repaired: no deviation is expected any more)
 		txt, st := c10StructDeviates(o, in.Expected)
 		switch {
 		case txt && !st:
